@@ -73,6 +73,32 @@ theorem setResponse_refused_iff (noResp : Option Nat) (code : Nat) :
   | none => rfl
   | some v => simp only [isNoResponse_eq_spec]
 
+/-- **Other options do not matter**: whatever options precede or follow it in the request (in particular options with
+    higher numbers: Request-Tag 292, OCF 2049/2053, vendor options), the response writer reads the request's
+    No-Response option, and a response is refused exactly when that value suppresses its class. -/
+theorem noRespOption_anywhere (pre post : List (Nat × List UInt8)) (v : List UInt8) (h : ∀ o ∈ pre, o.1 ≠ 258) :
+    noRespOption (pre ++ (258, v) :: post) = some v := by
+  unfold noRespOption
+  induction pre with
+  | nil => simp
+  | cons a t ih =>
+    have ha : (a.1 == 258) = false := by simpa using h a (List.mem_cons_self)
+    simp only [List.cons_append, List.find?_cons, ha]
+    exact ih (fun o ho => h o (List.mem_cons_of_mem _ ho))
+
+theorem request_options_position_irrelevant (pre post : List (Nat × List UInt8)) (v : List UInt8) (code : Nat)
+    (h : ∀ o ∈ pre, o.1 ≠ 258) :
+    setResponseAccepted (noResponseValue (noRespOption (pre ++ (258, v) :: post))) code
+      = !suppressed code (decodeUint32 v) := by
+  rw [noRespOption_anywhere pre post v h]
+  simp [noResponseValue, setResponseAccepted, isNoResponse_eq_spec]
+
+theorem no_option_never_refused (opts : List (Nat × List UInt8)) (code : Nat) (h : ∀ o ∈ opts, o.1 ≠ 258) :
+    setResponseAccepted (noResponseValue (noRespOption opts)) code = true := by
+  have : opts.find? (fun o => o.1 == 258) = none := by
+    rw [List.find?_eq_none]; intro o ho; simpa using h o ho
+  simp [noRespOption, this, noResponseValue, setResponseAccepted]
+
 /-- What reaches the wire conforms to the property for every transport, request type, option value and code. -/
 theorem serve_conforms (tr : Transport) (rt : ReqType) (noResp : Option Nat) (code : Nat) :
     judge tr rt noResp code (serve tr rt noResp code) = true := by
@@ -141,6 +167,9 @@ open CoapVerif.Props.C20
 #print axioms isNoResponse_eq_spec
 #print axioms only_low_bits_matter
 #print axioms setResponse_refused_iff
+#print axioms noRespOption_anywhere
+#print axioms request_options_position_irrelevant
+#print axioms no_option_never_refused
 #print axioms serve_conforms
 #print axioms suppressed_not_sent
 #print axioms unsuppressed_sent
